@@ -221,6 +221,9 @@ def eval_callee(self: Interp, fn, st):
 
 
 def dispatch_call(self: Interp, f, args, kwargs, st, node):
+    if isinstance(f, Opt):
+        self.safety(st, znot(f.is_none), "callee-not-None", node)
+        f = f.val
     if isinstance(f, FuncV):
         kind, name = f.qual
         if kind == "builtin":
@@ -307,8 +310,11 @@ def dispatch_call(self: Interp, f, args, kwargs, st, node):
             r = h(self, st, recv, args, kwargs, node)
             return r if isinstance(r, list) else [(st, r, None)]
     if isinstance(f, Opaque):
-        # calling an opaque callable (user model, filter): deterministic uninterpreted result is not modelled here
-        raise Unsupported("call of opaque callable")
+        h = lib.OPAQUE_CALL.get(f.cls)
+        if h is None:
+            raise Unsupported("call of opaque callable")
+        r = h(self, st, f, args, kwargs, node)
+        return r if isinstance(r, list) else [(st, r, None)]
     raise Unsupported(f"call of {type(f).__name__}")
 
 
@@ -616,7 +622,9 @@ def apply_contract(self: Interp, key, selfv, args, kwargs, st: State, node):
                 for e in c.exc_ensures:
                     s2.assume(self.contract_truth(e, s2))
             s2.env = dict(caller_env)
-            outs.append((s2, None, Exc(ecls, ())))
+            ex = Exc(ecls, ())
+            ex.from_may_raise = True   # "whatever a callee may let escape" (no clause of the caller describes WHEN)
+            outs.append((s2, None, ex))
         # 4. normal exit
         for m in c.modifies:
             self.havoc(m, st)
